@@ -16,10 +16,10 @@ import (
 	"sort"
 	"strings"
 
+	spflag "github.com/spf13/pflag"
 	"github.com/vimeo/dials"
 	dflag "github.com/vimeo/dials/sources/flag"
 	dpflag "github.com/vimeo/dials/sources/pflag"
-	spflag "github.com/spf13/pflag"
 )
 
 // a list written as a;b;c
